@@ -261,7 +261,7 @@ def check_kernel_diffuse(ctx: Ctx):
     else:
         f, s, v = stores[0]
         try:
-            e = Converter(opaque_calls=False).conv(fv.expand(v, s, stop=(d1, d2, out)))
+            e = Converter(opaque_calls=True).conv(fv.expand(v, s, stop=(d1, d2, out)))
             want = (Expr.atom(f"{d1}.interface_width") + Expr.atom(f"{d2}.interface_width")) * Expr.const(2).inverse()
             ctx.decide(e == want, "TERM", site + ":out.interface_width", (kern, s), "mean of the two widths",
                        f"out.interface_width is not (w1 + w2)/2: {e.show()}")
